@@ -19,6 +19,7 @@ META = dict(
     required_hits=["conjugation", "real_axis", "entry_points", "cauchy_riemann"],
     max_inconclusive_frac=0.05,
 )
+META["level_text"] += ' A fifth of the points lie on / next to the lines Re N = 1..4 away from the real axis.'
 
 TOL = 1e-11
 SLOW_MODULES = ("operator_matrix_elements.unpolarized.space_like.as3",)
